@@ -220,3 +220,21 @@ def best_by_is_none(candidates, target):
         if best_score is None or score < best_score:
             best_score, best = score, c
     return best
+
+
+def _twice(values):
+    base = np.log(values)
+    if values.size == 1:
+        return base, base, np.zeros_like(base)
+    return base + 1, base + 2, base * 3
+
+
+def scales_a_twin_in_place(values, f):
+    first, second, third = _twice(values)
+    first *= f
+    return first + second + third
+
+
+def scales_a_copy(values, f):
+    first, second, third = _twice(values)
+    return first * f + second + third
